@@ -47,7 +47,23 @@ fn hash(p: usize) -> usize {
     (p >> 3).wrapping_mul(0x9E3779B97F4A7C15) >> (64 - 18)
 }
 
+/// the live table is shared by the threads of the schedule stream (serialised, except while a thread starts or ends)
+static TABLE_LOCK: AtomicBool = AtomicBool::new(false);
+struct TableGuard;
+fn lock_table() -> TableGuard {
+    while TABLE_LOCK.compare_exchange_weak(false, true, SeqCst, SeqCst).is_err() {
+        std::hint::spin_loop();
+    }
+    TableGuard
+}
+impl Drop for TableGuard {
+    fn drop(&mut self) {
+        TABLE_LOCK.store(false, SeqCst);
+    }
+}
+
 unsafe fn live_insert(p: usize, size: usize, align: usize) {
+    let _g = lock_table();
     let mut i = hash(p);
     loop {
         let q = LIVE_PTR[i];
@@ -62,6 +78,7 @@ unsafe fn live_insert(p: usize, size: usize, align: usize) {
 }
 
 unsafe fn live_remove(p: usize) -> Option<(usize, usize)> {
+    let _g = lock_table();
     let mut i = hash(p);
     let mut n = 0;
     loop {
@@ -79,6 +96,7 @@ unsafe fn live_remove(p: usize) -> Option<(usize, usize)> {
 }
 
 pub fn live_lookup(p: usize) -> Option<(usize, usize)> {
+    let _g = lock_table();
     unsafe {
         let mut i = hash(p);
         let mut n = 0;
